@@ -21,11 +21,28 @@ using namespace Gudhi::persistence_fields;
 using vh::Toks; using vh::L; using vh::UL;
 template <class T> std::string S(const T& x) { std::ostringstream o; o << x; return o.str(); }
 
-struct F { virtual ~F() {} virtual std::string init(const Toks& t) = 0; virtual std::string op(const Toks& t) = 0; };
+struct F { virtual ~F() {} virtual std::string init(const Toks& t) = 0; virtual std::string op(const Toks& t) = 0;
+  virtual std::string xfer(int) { return "ok"; } };
+
+// the operator object is passed through copy / move / assignment / swap (both argument positions) against an object `g`
+// configured for ANOTHER field: afterwards it must still be the field it was initialised for
+template <class Ops> void xfer_ops(Ops& f, Ops& g, int k) {
+  switch (k % 6) {
+    case 0: { Ops c(f); Ops h(g); h = c; f = h; break; }                 // copy constructor, copy assignment over another field
+    case 1: { Ops c(std::move(f)); f = g; f = std::move(c); break; }     // move constructor, move assignment over another field
+    case 2: { swap(f, g); swap(g, f); break; }                           // first argument, then second argument
+    case 3: { swap(g, f); swap(f, g); break; }                           // second argument, then first argument
+    case 4: { Ops c(g); swap(c, f); f = c; break; }                      // swap then assignment from the swapped object
+    default: { Ops c(f); swap(f, g); f = g = c; break; } } }
 
 // ---- operator classes with unsigned elements
 template <class Ops, bool Multi> struct OpsU : F {
   Ops f;
+  std::string xfer(int k) override {
+    Ops g;
+    if constexpr (Multi) { if (f.get_characteristic() == 6) g.set_characteristic(5, 7); else g.set_characteristic(2, 3); }
+    else { g.set_characteristic(f.get_characteristic() == 3 ? 5 : 3); }
+    xfer_ops(f, g, k); return "ok"; }
   std::string init(const Toks& t) override {
     if constexpr (Multi) { f.set_characteristic((int)L(t[1]), (int)L(t[2])); return "ok " + S(f.get_characteristic()); }
     else { f.set_characteristic((unsigned)UL(t[1])); return "ok"; } }
@@ -68,6 +85,10 @@ struct OpsZ2 : F {
 // GMP operators
 struct OpsGmp : F {
   Multi_field_operators f;
+  std::string xfer(int k) override {
+    Multi_field_operators g;
+    if (f.get_characteristic() == 6) g.set_characteristic(5, 7); else g.set_characteristic(2, 3);
+    xfer_ops(f, g, k); return "ok"; }
   std::string init(const Toks& t) override { f.set_characteristic((int)L(t[1]), (int)L(t[2])); return "ok " + f.get_characteristic().get_str(); }
   std::string op(const Toks& t) override {
     const std::string& o = t[0];
@@ -206,5 +227,6 @@ int main(int argc, char** argv) {
       if ((t[0] == "zp" && multi) || (t[0] == "multi" && !multi)) { live = false; std::cout << "wrong-family\n"; return; }
       if (t[0] == "zp" || t[0] == "multi") { std::string r = vh::guarded([&] { return f->init(t); }); live = (r.substr(0, 2) == "ok"); if (!live) f.reset(make(kind)); std::cout << r << "\n"; return; }
       if (!live) { std::cout << "no-field\n"; return; }
+      if (t[0] == "xfer") { std::cout << vh::guarded([&] { return f->xfer((int)L(t[1])); }) << "\n"; return; }
       std::cout << vh::guarded([&] { return f->op(t); }) << "\n"; });
 }
